@@ -7,4 +7,5 @@ CONSTANTS
   Tasks <- MCTasks
   ThreadOf <- MCThreadOfShared
 INVARIANTS FrameOrder
+VIEW MCView
 CHECK_DEADLOCK FALSE
